@@ -47,12 +47,12 @@ def run(ctx):
     # event to the history that led to it and the spec rejects it
     ctx.harness(binary, ["-plans", pdir, "-out", tfile, "-seed", ctx.seed, "-rand", ctx.q(48, 800),
                          "-nstress", ctx.q(16, 300), "-nlife", ctx.q(112, 1120), "-nmicro", ctx.q(120, 2000),
-                         "-nlong", ctx.q(1, 4), "-nwide", ctx.q(4, 10)],
+                         "-nlong", ctx.q(1, 4), "-nwide", ctx.q(4, 10), "-nrace", ctx.q(2000, 20000)],
                 timeout=2400, traces=[tfile])
     alltr = ctx.load_traces(tfile)
     mode = lambda t: t[0]["src"].split(":")[0]
     steps = [t for t in alltr if mode(t) in ("plan", "rand")]
-    life = [t for t in alltr if mode(t) in ("life", "long", "wide")]
+    life = [t for t in alltr if mode(t) in ("life", "long", "wide", "race")]
     stress = [t for t in alltr if mode(t) == "stress"]
     if len(steps) + len(life) + len(stress) != len(alltr):
         raise MachineryError("trace with an unknown src")
@@ -105,7 +105,10 @@ def run(ctx):
              "function signatures for the reflective call) with kind+identity in the trace, returned aggregates "
              "scribbled over after rendering; one context shared by several calls; a lane filled to the brim at "
              "Stop; 257 / 65537 calls in a row as one run-length `burst` event; MultiLines of 8..1025 lanes (IndexOf "
-             "boundary hashes, getters, life cycle; no calls); 120 caller-less Run/Stop micro rounds. Stop "
+             "boundary hashes, getters, life cycle; no calls); 120 caller-less Run/Stop micro rounds; 2000 Stop || Stop race rounds (fresh started executor, 2-3 "
+             "goroutines call Stop together and each submits a call to a high lane as soon as ITS Stop returned; "
+             "MultiLines of 2..4096 lanes and the single-lane executors; one `late` event per round: accepted, "
+             "executed, other, stuck - all must be 0). Stop "
              "is never called on the driver: `stopr` is logged when it returns, a parked Stop is legal until the "
              "final quiescent point (consumers started, Stop called, every gate opened), where Final must hold",
         explanation="callee start/end with the lane index handed over, every caller's reply, and at each quiescent "
